@@ -44,6 +44,12 @@ if rnd % 4 == 2 and rnd > 12:
         "a defect in DEFAULTS and ZERO VALUES: an option left unset, a zero count or an empty string treated as 'not given' (or the other way round), a default that differs between two entry points that should agree (Tofu.Render and Renderer.Execute, soyjs.Write and Generator.WriteFile, data.New and data.NewWith, Compile and CompileToTofu), a default applied twice or at the wrong time",
         "a defect in a value that passes through TWO LAYERS or comes BACK as input: escaped twice or not at all where two escapers meet, a value converted twice, the output of one API fed into another (an extracted catalogue loaded back, generated JavaScript evaluated, a printed expression parsed again, an error text taken apart by errortypes), text normalised before and after another step",
     ]
+if rnd % 4 == 3 and rnd > 12:
+    AIMS = [
+        "a defect in a DIAGNOSTIC path itself: an error text that names the wrong thing, a position computed from the wrong string or the wrong node, an error that loses its file position when it is wrapped or annotated, an error value built after the state it describes has moved on, two different failures that produce one and the same text",
+        "a defect that needs a SPECIFIC COMBINATION OF NAMES OR STRINGS: two identifiers that collide after a transformation (case folding, trimming a prefix or suffix, joining with a separator, sanitising for JavaScript), a name equal to a keyword, a built-in or a generated helper name, a key or value that contains the separator a later step splits on",
+        "a defect in ARITHMETIC on sizes, positions or counts: an off-by-one at a slice bound, an integer overflow or truncation (int, int64, float64), a length in bytes used as a length in characters or UTF-16 units, the modulo or division of a negative number, a rounding in the wrong direction, a loop bound computed once and stale afterwards",
+    ]
 os.makedirs("/tmp/wt", exist_ok=True)
 for line in open(os.path.join(root, "properties.jsonl")):
     p = json.loads(line)
